@@ -16,6 +16,7 @@ From MV Require Toc.Acl.
 From MV Require Schema.Subtype.
 From MV Require Toc.UserView.
 From MV Require Rec.Crash.
+From MV Require Rec.JsonGrammar.
 From MV Require Rec.Frozen.
 From MV Require IH5.Stub.
 From MV Require IH5.MergeRun.
@@ -50,5 +51,6 @@ Definition dispatch (x : sx) : sx :=
   | L [A "c06"; c] => Toc.Sync.run_c06 c
   | L [A "c07"; c] => Toc.Query.run_c07 c
   | L [A "c20"; c] => Toc.SelfDesc.run_c20 c
+  | L [A "c11j"; c] => Rec.JsonGrammar.run_c11j c
   | _ => sx_bad "dispatch"
   end.
